@@ -175,7 +175,7 @@ def nontrivial_code(code):
     return len(lt) >= 4 or any(b[i] in JUMPS for i in range(0, len(b), 2))
 
 
-def drive(shard, prop, on_decoded, label, depth0_only=False, sample_every=1, variants=0):
+def drive(shard, prop, on_decoded, label, depth0_only=False, sample_every=1, variants=0, stress_same=None, stress_n=10):
     """Install a post-condition on _code_data.to_code_data and drive the shard's corpus.
 
     on_decoded(code, cd, case, report) is called for every successful decode (every nesting
@@ -183,7 +183,7 @@ def drive(shard, prop, on_decoded, label, depth0_only=False, sample_every=1, var
     """
     import corpus
     cdm = H.import_repo()
-    from code_data import _code_data
+    _code_data = H.lib("_code_data")
     state = {"case": None}
 
     def post(a, k, res, exc, depth, snap):
@@ -212,8 +212,11 @@ def drive(shard, prop, on_decoded, label, depth0_only=False, sample_every=1, var
             H.emit({"t": "monitor_error", "prop": prop, "case": case, "trace": traceback.format_exc()[-1500:]})
 
     mon = H.Monitor(_code_data, "to_code_data", post=post).install()
+    stress_items = []
     for case, id_, code, text in corpus.iter_cases(shard):
         state["case"] = corpus.replay_case(case)
+        if stress_same is not None and len(stress_items) < stress_n * 3 and 40 <= sum(len(c.co_code) for c, _d in H.iter_code(code)) <= 3000:
+            stress_items.append((state["case"], code))
         state["compiler_output"] = case["k"] not in ("w9",)
         try:
             cdm.CodeData.from_code(code)
@@ -247,4 +250,79 @@ def drive(shard, prop, on_decoded, label, depth0_only=False, sample_every=1, var
                     H.count("variant_decode_raised:" + type(e).__name__)
         if H._counters.get("cases", 0) <= 3:
             H.sample({"id": id_, "source_head": H.short(text if isinstance(text, str) else text.decode("utf-8", "replace"), 160)})
+    if stress_same is not None and len(stress_items) >= 2:
+        # the same decodes again, re-entrantly and from several threads: results must not depend on the interleaving
+        import stress
+        rng = H.rng_for(shard.get("seed", 0), "stress", shard.get("shard", 0))
+        if len(stress_items) > stress_n:
+            stress_items = rng.sample(stress_items, stress_n)
+        stress.stress(prop, stress_items, cdm.CodeData.from_code, stress_same, rng, label="CodeData.from_code")
     return mon
+
+
+# ---- projections compared by the re-entrant / concurrent stress (stress.py): what each property speaks about -------------
+
+def _nested(cd):
+    out = []
+    for block in cd.blocks:
+        for ins in block:
+            c = getattr(ins.arg, "constant", None)
+            if hasattr(c, "blocks"):
+                out.append(c)
+    for a in cd._additional_args:
+        c = getattr(a, "constant", None)
+        if hasattr(c, "blocks"):
+            out.append(c)
+    return out
+
+
+def _diff(pa, pb, what):
+    if pa == pb:
+        return None
+    return "%s: %s vs %s" % (what, H.short(pa, 180), H.short(pb, 180))
+
+
+def same_whole(a, b):
+    try:
+        return None if a == b else "decoded data differ (%d vs %d blocks, %d vs %d instructions)" % (
+            len(a.blocks), len(b.blocks), len(flatten(a)), len(flatten(b)))
+    except Exception as e:
+        return "comparison raises %s" % type(e).__name__
+
+
+def same_shape(a, b):
+    """C13: block lengths and jump targets, nested code objects included."""
+    def shape(cd):
+        return (tuple(len(bl) for bl in cd.blocks),
+                tuple(getattr(ins.arg, "target", None) for ins in flatten(cd) if type(ins.arg).__name__ == "Jump"),
+                tuple(shape(n) for n in _nested(cd)))
+    return _diff(shape(a), shape(b), "block partition")
+
+
+def same_instructions(a, b):
+    """C02: instruction names, resolved operands and lines, nested code objects included."""
+    def proj(cd):
+        out = []
+        for ins in flatten(cd):
+            arg = ins.arg
+            c = getattr(arg, "constant", None)
+            if hasattr(c, "blocks"):
+                argp = ("code", proj(c))
+            else:
+                argp = H.srepr(arg)
+            out.append((ins.name, argp, ins.line_number))
+        return tuple(out)
+    pa, pb = proj(a), proj(b)
+    if pa == pb:
+        return None
+    for i, (x, y) in enumerate(zip(pa, pb)):
+        if x != y:
+            return "instruction %d: %s vs %s" % (i, H.short(x, 160), H.short(y, 160))
+    return "instruction count %d vs %d" % (len(pa), len(pb))
+
+
+def same_types(a, b):
+    """C04: the type (Function with Args / docstring / kind, or None) of every code object."""
+    def proj(cd):
+        return (repr(cd.type), tuple(proj(n) for n in _nested(cd)))
+    return _diff(proj(a), proj(b), "types")
